@@ -38,6 +38,8 @@ def gap(run, quick):
                     B = D[i1:i1 + (2 * ell + 1) ** 2].reshape(2 * ell + 1, 2 * ell + 1)
                     ref[..., ell * ell:(ell + 1) ** 2] = arr0[..., ell * ell:(ell + 1) ** 2] @ B
                 calcs = [("exact", spherical.Wigner(L)), ("larger", spherical.Wigner(L + 2))]
+                if L >= abs(s) + 2:   # calculator ell_min above the modes' lowest ell: served through the Horner route
+                    calcs += [("ell_min>|s|", spherical.Wigner(L, ell_min=abs(s) + 2))]
                 if abs(s) >= 1:   # calculators whose own ell_min is above 0 (anything up to |s| must serve these modes)
                     calcs += [("ell_min=|s|", spherical.Wigner(L + 1, ell_min=abs(s))), ("ell_min=1", spherical.Wigner(L, ell_min=1))]
                 for cname, w in calcs:
@@ -63,6 +65,14 @@ def gap(run, quick):
                             run.violation("rotate-differs-from-f.D", site, inp, "sum_m' f_lm' D_m'm", f"max abs err {err} > {tol}")
                         if not np.array_equal(modes.ndarray, arr0):
                             run.violation("rotate-modified-input", site, inp, "input unchanged", "changed")
+                        # the same request into a caller-supplied, non-zero output buffer
+                        try:
+                            buf = np.full(modes.shape, 3.0 - 2.0j)
+                            ro = w.rotate(modes, quaternionic.array(R), out=buf, horner=horner).ndarray
+                            if not (float(np.max(np.abs(ro - ref))) <= tol) or not (float(np.max(np.abs(buf - ref))) <= tol):
+                                run.violation("rotate-differs-from-f.D", site, {**inp, "out": "prefilled"}, "sum_m' f_lm' D_m'm written into out", f"max abs err {float(np.max(np.abs(ro - ref)))}")
+                        except Exception as e:
+                            run.violation("rotate-raised-on-valid-request", site, {**inp, "out": "prefilled"}, "Modes", repr(e))
                         # block norms
                         for ell in range(abs(s), L + 1):
                             n0 = np.linalg.norm(arr0[..., ell * ell:(ell + 1) ** 2], axis=-1)
